@@ -6,7 +6,11 @@ reg(Prop(
     [Harness('c07_rawvec', parts=16, thorough_cfg='asan1'),
      # thorough only: the same harness without sanitizer instrumentation under valgrind memcheck (uninitialised reads and
      # leaks that ASan's red zones do not see), on a reduced number of histories
-     Harness('c07_rawvec_memcheck', src=['c07_rawvec.cpp'], cfg='plain', runner='valgrind', tiers=('thorough',), parts=16, args=['--small'])],
+     Harness('c07_rawvec_memcheck', src=['c07_rawvec.cpp'], cfg='plain', runner='valgrind', tiers=('thorough',), parts=16, args=['--small']),
+     # thorough only: the same history runners driven by clang libFuzzer (coverage-guided byte strings instead of the PRNG),
+     # 16 independent fuzzers bounded by executions
+     Harness('c07_rawvec_fuzz', src=['c07_rawvec.cpp'], cfg='fuzz', runner='libfuzzer', tiers=('thorough',), parts=16, libs=(),
+             fuzz_runs=100000)],
     rule='A case is one seeded operation history (up to 41 steps quick / 61 thorough) on a raw_vector<T, ledger allocator> '
          '(T = int, unsigned char, a 24-byte trivial struct) starting from one of 7 constructors, or on a buffer<T>, or one '
          '(length,count) pair for io::read_chars. After every step the real container is compared with a shadow std::vector '
@@ -16,7 +20,7 @@ reg(Prop(
          'in std::vector); likewise buffer::resize_write_area. read_from/read_from_opt (all sizes 0..12 x written 0..size) and dynamic_array (sizes 0..40) are judged too. Positions/counts are always valid for the current size; aliasing arguments refer '
          'to elements before/at/after the position. distinct = hash of the full operation history text.',
     assumptions=COMMON_ASSUMPTIONS + [
-        'side conditions as for std::vector: valid positions, inserted ranges do not alias the vector, pop_back needs size > 0, a moved-from vector is only assigned to, queried for size and destroyed',
+        'side conditions as for std::vector: valid positions, inserted ranges do not alias the vector, pop_back needs size > 0; the contents of a moved-from vector are unspecified (the shadow takes over what it reports) but it must be usable: histories continue on moved-from objects',
         'std::vector is the reference for contents and iterator offsets'],
     exhaustive_spaces=['io::read_chars: all (stream length 0..9, count 0..length+2)', 'buffer::read_from/read_from_opt: all (size 0..12, written 0..size)'],
 ))
